@@ -1213,6 +1213,1324 @@ def returned_object_cases(ctx, crcmod, CRC16, CRC9, CRC32, CrcMasks):
                          f"{front.__name__}: result depends on what the singleton's register was fed before", expected=good_of(d), actual=out_int(r))
 
 
+# ================================================================================================
+# round 3
+# ------------------------------------------------------------------------------------------------
+# (1) wrong check values that are SYSTEMATIC TRANSFORMS of the right one, for every check()/verify entry point
+def budget2(ctx, quick, thorough):
+    """budget of the round-3 classes: a fixed small share, at most doubled by the drift / broken-proof boost"""
+    return (thorough if ctx.thorough() else quick) * min(ctx.boost, 2)
+
+
+def _bitrev(v, n):
+    return int(format(v & ((1 << n) - 1), f"0{n}b")[::-1], 2) if n else 0
+
+
+def _rotl(v, k, n):
+    k %= n
+    return ((v << k) | (v >> (n - k))) & ((1 << n) - 1)
+
+
+def wrong_values(good, w, mask_values=(), related=()):
+    """[(label, value)]: the computed value first, then values an endianness- / notation- / mask-confused peer
+    would send instead: octets reversed, bits reversed (whole, per octet), halves / octet pairs / nibbles swapped,
+    complements, rotations, shifts, xor with every data-type mask, neighbours, truncations, sign / width
+    confusions — deduplicated by value, first label wins; `related` adds (label, value) pairs of the caller
+    (values of related algorithms / of neighbouring inputs)."""
+    nb = (w + 7) // 8
+    cw = 8 * nb  # width of the octet container the value travels in
+    full, cfull = (1 << w) - 1, (1 << cw) - 1
+    g = good & cfull
+    octs = g.to_bytes(nb, "big")
+    out = [("computed", good)]
+    out.append(("octets-reversed", int.from_bytes(octs, "little")))
+    out.append(("bits-reversed", _bitrev(good, w)))
+    out.append(("bits-reversed-in-container", _bitrev(g, cw)))
+    out.append(("bits-reversed-per-octet", int.from_bytes(bytes(_bitrev(o, 8) for o in octs), "big")))
+    out.append(("nibbles-swapped-per-octet", int.from_bytes(bytes(((o << 4) | (o >> 4)) & 0xFF for o in octs), "big")))
+    out.append(("halves-swapped", _rotl(g, cw // 2, cw)))
+    if nb >= 2:
+        sw = bytearray(octs)
+        for i in range(0, nb - 1, 2):
+            sw[i], sw[i + 1] = octs[i + 1], octs[i]
+        out.append(("octet-pairs-swapped", int.from_bytes(bytes(sw), "big")))
+        out.append(("octet-pairs-swapped+halves-swapped", _rotl(int.from_bytes(bytes(sw), "big"), cw // 2, cw)))
+    out.append(("complement", good ^ full))
+    out.append(("complement-in-container", g ^ cfull))
+    out.append(("negated-mod-2^w", (-good) & full))
+    for k in sorted({1, 2, 4, 8, w // 2, w - 1, w - 8} - {0}):
+        if 0 < k < w:
+            out.append((f"rotated-left-{k}", _rotl(good & full, k, w)))
+    for k in (1, 4, 8, 16):
+        if k < w + 8:
+            out.append((f"shifted-left-{k}-truncated", (good << k) & full))
+            out.append((f"shifted-left-{k}", good << k))
+            out.append((f"shifted-right-{k}", good >> k))
+    for m in mask_values:
+        out.append((f"xor-mask-{m:#x}-truncated", good ^ (m & full)))
+        out.append((f"xor-mask-{m:#x}", good ^ m))
+    out += [("plus-1", good + 1), ("minus-1", good - 1), ("top-bit-flipped", good ^ (1 << (w - 1))), ("low-bit-flipped", good ^ 1),
+            ("low-octet-only", good & 0xFF), ("high-octet-only", good >> max(0, w - 8)), ("low-octet-cleared", good & ~0xFF & full),
+            ("low-16-only", good & 0xFFFF), ("plus-2^w", good + (1 << w)), ("bit-w-set", good | (1 << w)), ("minus-2^w", good - (1 << w)),
+            ("arithmetic-negative", -good), ("gray-code", good ^ (good >> 1)), ("zero", 0), ("all-ones", full), ("container-all-ones", cfull)]
+    if w in ETSI:
+        out += factor_values(good, w)
+    out += list(related)
+    seen, res = set(), []
+    for lab, v in out:
+        if v not in seen:
+            seen.add(v)
+            res.append((lab, v))
+    return res
+
+
+_FACTORS = {}
+
+
+def generator_factors(w):
+    """the proper divisors of degree 1 .. w/2 (and their cofactors) of the ETSI generator of width w over GF(2), as
+    ints — a checker that only tests divisibility by one factor accepts computed ^ (multiple of the cofactor)"""
+    if w in _FACTORS:
+        return _FACTORS[w]
+    g = ETSI[w] | (1 << w)
+
+    def divmod2(a, b):
+        q, db = 0, b.bit_length()
+        while a.bit_length() >= db:
+            sh = a.bit_length() - db
+            q |= 1 << sh
+            a ^= b << sh
+        return q, a
+
+    out = []
+    for f in range(2, 1 << (min(w // 2, 16) + 1)):
+        q, r = divmod2(g, f)
+        if r == 0:
+            out += [f, q]
+    _FACTORS[w] = sorted(set(out))
+    return _FACTORS[w]
+
+
+def factor_values(good, w):
+    full = (1 << w) - 1
+    res = []
+    for f in generator_factors(w):
+        for k, lab in ((1, ""), (2, "*x"), (3, "*(x+1)")):
+            v, kk, sh = 0, k, 0
+            while kk:  # carry-less product f * k
+                if kk & 1:
+                    v ^= f << sh
+                kk >>= 1
+                sh += 1
+            if v <= full:
+                res.append((f"xor-generator-factor-{f:#x}{lab}", good ^ v))
+    res.append(("xor-generator-low-part", good ^ ETSI[w]))
+    return res
+
+
+def poly_mod(dividend, w):
+    """remainder of an arbitrary dividend (0/1 list of length >= w, highest power first) modulo the ETSI generator"""
+    g = [1] + [(ETSI[w] >> (w - 1 - i)) & 1 for i in range(w)]
+    d = list(dividend)
+    for i in range(len(d) - w):
+        if d[i]:
+            for j in range(w + 1):
+                d[i + j] ^= g[j]
+    return d[-w:]
+
+
+def _ref_variant(bits, w, init_ones=False, refl=False, xorout=0):
+    """the check sum a peer with ANOTHER flavour of the same polynomial computes (a wrong value for DMR): all-ones
+    initial register (= the first w coefficients of message(x)*x^w complemented), octet-reflected input with
+    reflected output, final xor.  Only ever used as a candidate wrong value; the expectation is `v == computed`."""
+    b = [int(x) for x in bits]
+    if refl and len(b) % 8 == 0:
+        b = [x for i in range(0, len(b), 8) for x in reversed(b[i:i + 8])]
+    ext = b + [0] * w
+    if init_ones:
+        ext = [1 - x for x in ext[:w]] + ext[w:]
+    v = int("".join(map(str, poly_mod(ext, w))), 2)
+    if refl:
+        v = _bitrev(v, w)
+    return v ^ xorout
+
+
+def transform_cases(ctx, crcmod, CRC8, CRC9, CRC16, CRC32, CrcMasks):
+    """every check()/verify entry point with wrong values that are systematic transforms of the right one
+    (and the right one): the verdict must be True exactly for the computed value"""
+    import binascii
+    import zlib
+
+    rng = ctx.rng
+    masks = list(CrcMasks)
+    mvals = sorted(set(ETSI_MASKS.values()))
+    enums = {7: crcmod.Crc7, 8: crcmod.Crc8, 9: crcmod.Crc9, 16: crcmod.Crc16, 32: crcmod.Crc32}
+    nfail = [0]
+    budget = lambda q, t: budget2(ctx, q, t)  # noqa: E731
+
+    def verdict(entry, comp, inp, label, v, got, exp, pairs, line):
+        pairs.append((line, out_bool(got)))
+        ctx.case((entry, line))
+        ctx.count(f"transform:entry:{entry}")
+        ctx.count(f"transform:value:{label.split('-0x')[0] if label.startswith(('xor-mask', 'xor-generator-factor')) else 'with-another-mask' if label.startswith('with-mask-') else label}")
+        if got != exp and nfail[0] < 40:
+            nfail[0] += 1
+            ctx.fail(comp.replace(".", "-") if comp.endswith("check") else "verify-not-exact", dict(inp, value=v, transform=label),
+                     f"{entry} does not accept exactly the computed value: the value '{label}' of the computed one gets another verdict", expected=str(exp), actual=str(got))
+
+    def data_octets(k):
+        kind = k % 6
+        n = rng.choice([1, 2, 3, 4, 5, 8, 10, 10, 12, 12, 16, 22, rng.randint(1, 40)])
+        if kind == 4:
+            return bytes(n)
+        if kind == 5:
+            return b"\xff" * n
+        return bytes(rng.getrandbits(8) for _ in range(n))
+
+    # ---------------------------------------------------------------- raw engines: verify_checksum, both register kinds
+    for w, en in enums.items():
+        name = CFG_NAMES[w]
+        calcs = [(call(crcmod.BitCrcCalculator, en.ETSI_DMR, False), "b"), (call(crcmod.BitCrcCalculator, en.ETSI_DMR, True), "t")]
+        if any(is_err(c) for c, _ in calcs):
+            continue
+        pairs = []
+        for k in range(budget(8, 40)):
+            n = rng.choice([w, 2 * w, 8 * rng.randint(1, 12), rng.randint(1, 100), 96])
+            bits = [rng.getrandbits(1) for _ in range(n)] if k % 4 else force_rem(base_bits(rng, max(n, w)), list(range(max(n, w) - w, max(n, w))), w, rng.choice(special_values(w, rng)))
+            good = rem_int(bits, w)
+            rel = [("init-all-ones", _ref_variant(bits, w, init_ones=True)), ("reflected", _ref_variant(bits, w, refl=True)),
+                   ("init-all-ones+xorout", _ref_variant(bits, w, init_ones=True, xorout=(1 << w) - 1)),
+                   ("reflected+init-all-ones+xorout", _ref_variant(bits, w, init_ones=True, refl=True, xorout=(1 << w) - 1)),
+                   ("of-message-without-last-bit", rem_int(bits[:-1], w)), ("of-message-plus-zero-bit", rem_int(bits + [0], w)),
+                   ("of-reversed-message", rem_int(bits[::-1], w)), ("of-complemented-message", rem_int([1 - b for b in bits], w))]
+            arg = barg(bitarray(bits))
+            for lab, v in wrong_values(good, w, mvals, rel):
+                for calc, mt in calcs:
+                    r = call(calc.verify_checksum, bitarray(bits), v)
+                    verdict(f"{name}.verify_checksum[{mt}]", "verify", {"component": "verify", "config": name, "bits": arg, "table": mt == "t"}, lab, v, r, v == good,
+                            pairs, f"crc.verify {name} {mt} {arg} {v}")
+        if not ctx.search_only and ctx.driver_ok:
+            ctx.correspond(f"{name}.verify.transforms", pairs)
+    # ---------------------------------------------------------------- CRC8.check
+    pairs = []
+    for k in range(budget(25, 150)):
+        n = rng.choice([8, 36, 36, 72, rng.randint(1, 90)])
+        bits = [rng.getrandbits(1) for _ in range(n)]
+        good = rem_int(bits, 8)
+        rel = [("init-all-ones", _ref_variant(bits, 8, init_ones=True)), ("reflected", _ref_variant(bits, 8, refl=True)),
+               ("of-message-without-last-bit", rem_int(bits[:-1], 8)), ("of-reversed-message", rem_int(bits[::-1], 8))]
+        arg = barg(bitarray(bits))
+        for lab, v in wrong_values(good, 8, mvals, rel):
+            c = call(CRC8.check, bitarray(bits), v)
+            exp = "ERR AssertionError" if not (0 <= v <= 255) else (v == good)
+            verdict("CRC8.check", "crc8.check", {"component": "crc8.check", "bits": arg}, lab, v, c, exp, pairs, f"crc8.check 0 {arg} {v}")
+    if not ctx.search_only and ctx.driver_ok:
+        ctx.correspond("CRC8.check.transforms", pairs)
+    # ---------------------------------------------------------------- CRC16.check, every mask
+    pairs = []
+    for k in range(budget(33, 220)):
+        d = data_octets(k)
+        m = masks[k % len(masks)]
+        mv = ETSI_MASKS.get(m.name, m.value)
+        plain = rem_int(bytes_bits(d), 16)
+        good = (plain ^ 0xFFFF) ^ mv
+        rel = [("not-inverted", plain ^ mv), ("not-masked", plain ^ 0xFFFF), ("plain-remainder", plain), ("mask-only", mv), ("inverted-mask", mv ^ 0xFFFF),
+               ("crc_hqx-init-0", binascii.crc_hqx(d, 0)), ("crc_hqx-init-ffff", binascii.crc_hqx(d, 0xFFFF)), ("crc_hqx-init-ffff-inverted+mask", binascii.crc_hqx(d, 0xFFFF) ^ 0xFFFF ^ mv),
+               ("reflected(kermit)", _ref_variant(bytes_bits(d), 16, refl=True)), ("of-data-without-last-octet", (rem_int(bytes_bits(d[:-1]), 16) ^ 0xFFFF) ^ mv),
+               ("of-data-plus-zero-octet", (rem_int(bytes_bits(d + b"\0"), 16) ^ 0xFFFF) ^ mv), ("of-octet-pair-swapped-data", (rem_int(bytes_bits(ref_byteswap(d)), 16) ^ 0xFFFF) ^ mv),
+               ("of-reversed-data", (rem_int(bytes_bits(d[::-1]), 16) ^ 0xFFFF) ^ mv)]
+        rel += [(f"with-mask-{o.name}", (plain ^ 0xFFFF) ^ ETSI_MASKS.get(o.name, o.value)) for o in masks if o is not m]
+        if good > 0xFFFF:  # a 24-bit mask on the 16-bit CRC: no 16-bit value can be right
+            rel.append(("computed-truncated-to-16", good & 0xFFFF))
+        for lab, v in wrong_values(good, 16, mvals, rel):
+            c = call(CRC16.check, d, v, m)
+            exp = "ERR AssertionError" if not (0 <= v <= 0xFFFF) else (v == good)
+            verdict("CRC16.check", "crc16.check", {"component": "crc16.check", "data": hex_str(d), "mask": m.name}, lab, v, c, exp, pairs, f"crc16.check {hex_str(d)} {v} {m.value}")
+    if not ctx.search_only and ctx.driver_ok:
+        ctx.correspond("CRC16.check.transforms", pairs)
+    # ---------------------------------------------------------------- CRC32.check, even and odd lengths, chosen results
+    pairs = []
+    specials = special_values(32, rng) + [0x01020304, 0x80000001, 0x00FF00FF, 0x12345678, 0x000000FF, 0xFF000000, 0x0000FFFF]
+    for k in range(budget(40, 250)):
+        if k % 3 == 2:  # data constructed such that the result is a chosen value (single bits, one non-zero octet, 0x01020304 …)
+            nbo = rng.choice([4, 5, 6, 12, 13, rng.randint(4, 30)])
+            fed = force_rem(base_bits(rng, 8 * nbo), list(range(8 * nbo - 32, 8 * nbo)), 32, specials[(k // 3) % len(specials)])
+            d = ref_byteswap(bits_bytes(fed))
+        else:
+            d = data_octets(k)
+        good = rem_int(bytes_bits(ref_byteswap(d)), 32)
+        rel = [("of-data-without-octet-swap", rem_int(bytes_bits(d), 32)), ("zlib.crc32", zlib.crc32(d)), ("zlib.crc32-of-swapped", zlib.crc32(ref_byteswap(d))),
+               ("bzip2-flavour", _ref_variant(bytes_bits(ref_byteswap(d)), 32, init_ones=True, xorout=0xFFFFFFFF)),
+               ("init-all-ones", _ref_variant(bytes_bits(ref_byteswap(d)), 32, init_ones=True)), ("reflected", _ref_variant(bytes_bits(ref_byteswap(d)), 32, refl=True)),
+               ("of-data-without-last-octet", rem_int(bytes_bits(ref_byteswap(d[:-1])), 32)), ("of-data-plus-zero-octet", rem_int(bytes_bits(ref_byteswap(d + b"\0")), 32)),
+               ("of-reversed-data", rem_int(bytes_bits(ref_byteswap(d[::-1])), 32))]
+        for lab, v in wrong_values(good, 32, mvals, rel):
+            c = call(CRC32.check, d, v)
+            exp = "ERR AssertionError" if not (0 <= v <= 0xFFFFFFFF) else (v == good)
+            verdict("CRC32.check", "crc32.check", {"component": "crc32.check", "data": hex_str(d)}, lab, v, c, exp, pairs, f"crc32.check {hex_str(d)} {v}")
+    if not ctx.search_only and ctx.driver_ok:
+        ctx.correspond("CRC32.check.transforms", pairs)
+    # ---------------------------------------------------------------- CRC9.check: masks, serial numbers, with / without CRC-32
+    pairs = []
+    for k in range(budget(33, 220)):
+        d = bytes(rng.getrandbits(8) for _ in range(rng.choice([10, 16, 22, 10, 16, 22, rng.randint(1, 24)])))
+        m = masks[k % len(masks)] if k % 2 else rng.choice([CrcMasks.Rate12DataContinuation, CrcMasks.Rate34DataContinuation, CrcMasks.Rate1DataContinuation])
+        mv = ETSI_MASKS.get(m.name, m.value)
+        sn = rng.choice([0, 1, 127, rng.randrange(128), rng.randrange(128)])
+        c32 = rng.getrandbits(32) | 1
+        tag, arg, extra = [("none", None, []), (f"i:{c32}", c32, bytes_bits(c32.to_bytes(4, "big"))), ("b:" + c32.to_bytes(4, "big").hex(), c32.to_bytes(4, "big"), bytes_bits(c32.to_bytes(4, "big")))][k % 3]
+
+        def g9(data=d, ex=extra, s=sn, mval=mv, invert=0x1FF):
+            return (rem_int(bytes_bits(data) + list(ex) + [(s >> (6 - i)) & 1 for i in range(7)], 9) ^ invert) ^ mval
+
+        good = g9()
+        rel = [("not-inverted", g9(invert=0)), ("not-masked", g9(mval=0)), ("plain-remainder", g9(mval=0, invert=0)), ("serial-number-0", g9(s=0)),
+               ("serial-number+1", g9(s=(sn + 1) % 128)), ("serial-number-1", g9(s=(sn - 1) % 128)), ("serial-number-bits-reversed", g9(s=_bitrev(sn, 7))),
+               ("without-crc32-part" if extra else "with-zero-crc32-part", g9(ex=[] if extra else [0] * 32)),
+               ("crc32-part-octets-reversed", g9(ex=bytes_bits(c32.to_bytes(4, "little")) if extra else [])), ("of-data-without-last-octet", g9(data=d[:-1])),
+               ("serial-number-first", (rem_int([(sn >> (6 - i)) & 1 for i in range(7)] + bytes_bits(d) + list(extra), 9) ^ 0x1FF) ^ mv), ("computed-truncated-to-9", good & 0x1FF)]
+        rel += [(f"with-mask-{o.name}", g9(mval=ETSI_MASKS.get(o.name, o.value))) for o in masks if o is not m]
+        for lab, v in wrong_values(good, 9, mvals, rel):
+            c = call(CRC9.check, d, sn, v, m, arg)
+            exp = "ERR AssertionError" if v > 511 else (v == good)
+            verdict("CRC9.check", "crc9.check", {"component": "crc9.check", "data": hex_str(d), "serial": sn, "mask": m.name, "crc32": tag}, lab, v, c, exp, pairs,
+                    f"crc9.check {hex_str(d)} {sn} {v} {m.value} {tag}")
+    if not ctx.search_only and ctx.driver_ok:
+        ctx.correspond("CRC9.check.transforms", pairs)
+
+
+# ------------------------------------------------------------------------------------------------
+# (2) HISTORIES over register objects / calculators of ANY configuration under every public call, interleaved with
+#     the standard engines and the front ends; afterwards the standard engines and the process-wide lookup tables
+#     are verified again.  A history is a JSON-able list of steps (so that a failing one can be replayed verbatim):
+#       ["new", slot, kind, w, poly, fw, init, xorout, revIn, revOut]   kind b|t = register object, cb|ct = BitCrcCalculator
+#       ["std", slot, kind, w]                                         … constructed from the enum member CrcN.ETSI_DMR
+#       ["i"|"d"|"r"|"g", slot]      init() / digest() / reverse() / read .register
+#       ["u", slot, bits, how]       update(); how = big | little | frozen | readonly (provenance of the argument)
+#       ["w", slot, bits]            assign .register from a caller-owned bitarray, which the caller then overwrites
+#       ["s", slot, bits] / ["y", slot, bits, value]      calculate_checksum / verify_checksum (calculator slots)
+#       ["bad", slot, what]          a call that raises: update(None) | update(5) | calculate_checksum(None) | verify_checksum(None, 0)
+#       ["scribble", how]            the caller changes the bit string returned by the previous call in place
+#       ["f8", bits] ["f16", hex, mask] ["f9", hex, serial, mask] ["f32", hex]       front-end calls in between
+#       ["fbad", which]              a front-end call that raises (before, or only after, its singleton calculated)
+#       ["cache_clear"]              bits_create_lookup_table.cache_clear() (public functools API)
+#       ["tables", [[w, poly], …]]   build lookup tables for many other (width, polynomial) keys (cache eviction)
+OTHER_POLY = {7: 0x09, 8: 0x31, 9: 0x0B3, 16: 0x8005, 32: 0x1EDC6F41}
+OTHER_WIDTH = {7: 21, 8: 24, 9: 18, 16: 24, 32: 40}  # widths whose derived feed width stays <= 9 (cheap tables)
+_REF_TABLE = {}
+
+
+def ref_table(w):
+    """the lookup table as it has to be: entry i = remainder of the fw-bit number i (reference division)"""
+    if w not in _REF_TABLE:
+        fw = ref_feed_width(w)
+        _REF_TABLE[w] = ["".join(str(x) for x in poly_rem([(i >> (fw - 1 - k)) & 1 for k in range(fw)], w)) for i in range(1 << fw)]
+    return _REF_TABLE[w]
+
+
+def cfg_variants(rng, w):
+    """(label, dict of BitCrcConfiguration arguments): every flag toggled on the ETSI polynomial of width w,
+    combinations, explicit feed widths, another polynomial of the same width, the same polynomial at another width"""
+    full = (1 << w) - 1
+    fw = ref_feed_width(w)
+    base = dict(w=w, poly=ETSI[w], fw=0, init=0, xorout=0, revIn=0, revOut=0)
+    v = [
+        ("equal-to-standard", dict(base)),  # a separately constructed dataclass equal to CrcN.ETSI_DMR.value
+        ("reverse_output", dict(base, revOut=1)), ("reverse_input", dict(base, revIn=1)), ("reverse_input+output", dict(base, revIn=1, revOut=1)),
+        ("init-all-ones", dict(base, init=full)), ("init-1", dict(base, init=1)), ("init-random", dict(base, init=rng.randrange(1, full))),
+        ("xorout-all-ones", dict(base, xorout=full)), ("xorout-random", dict(base, xorout=rng.randrange(1, full))),
+        ("reverse_output+xorout", dict(base, revOut=1, xorout=full)), ("every-flag", dict(base, init=full, xorout=full, revIn=1, revOut=1)),
+        ("reverse_output+init", dict(base, revOut=1, init=full)),
+        ("feed-explicit-derived", dict(base, fw=fw)), ("feed-1", dict(base, fw=1)), ("feed-explicit-derived+reverse_output", dict(base, fw=fw, revOut=1)),
+        ("feed-small", dict(base, fw=rng.choice([2, 3, 4]))), ("feed-width", dict(base, fw=w)), ("feed-over-width", dict(base, fw=w + rng.choice([1, 3]))),
+        ("other-polynomial", dict(base, poly=OTHER_POLY[w])), ("other-polynomial+reverse_output", dict(base, poly=OTHER_POLY[w], revOut=1)),
+        ("other-width", dict(base, w=OTHER_WIDTH[w])), ("other-width+reverse_output", dict(base, w=OTHER_WIDTH[w], revOut=1)),
+    ]
+    return v
+
+
+def eff_fw(c):
+    return c["fw"] if c["fw"] >= 1 else ref_feed_width(c["w"])
+
+
+class Hist:
+    """interpreter of a history on the real code (used by run() and replay())"""
+
+    def __init__(self, libs):
+        self.crcmod, self.CRC8, self.CRC9, self.CRC16, self.CRC32, self.CrcMasks = libs
+        self.slots = {}      # slot -> dict(reg, calc, cfg (dict or None for std), w, kind, outs (values returned), acts (model calls), dead)
+        self.held = []       # [object, canonical value when it was returned / last scribbled, step index]
+        self.last = None
+        self.problems = []   # oracle findings: (kind, what, expected, actual, step index)
+        self.n = 0
+
+    # ---- helpers
+    def _ret(self, r):
+        if isinstance(r, bitarray):
+            self.held.append([r, out_bits(r), self.n])
+            self.last = self.held[-1]
+        else:
+            self.last = None
+        return r
+
+    def _mk_bits(self, bits, how):
+        if how == "little":
+            return bitarray([int(c) for c in bits] if bits != "-" else [], endian="little")
+        b = bitarray(bits if bits != "-" else "")
+        if how == "frozen":
+            from bitarray import frozenbitarray
+
+            return frozenbitarray(b)
+        if how == "readonly":
+            # a bit string imported from a read-only buffer (whole octets only)
+            if len(b) % 8 == 0 and len(b):
+                return bitarray(buffer=b.tobytes())
+        return b
+
+    def step(self, st):
+        """executes one step, returns its canonical output"""
+        self.n += 1
+        op = st[0]
+        crcmod = self.crcmod
+        if op in ("new", "std"):
+            slot, kind = st[1], st[2]
+            if op == "new":
+                w, poly, fw, init, xo, ri, ro = st[3:10]
+                cfg = call(crcmod.BitCrcConfiguration, polynomial=poly, width_bits=w, feed_width_bits=fw, init_value=init, final_xor_value=xo,
+                           reverse_input_bytes=bool(ri), reverse_output_bytes=bool(ro))
+                cd = dict(w=w, poly=poly, fw=fw, init=init, xorout=xo, revIn=ri, revOut=ro)
+            else:
+                w = st[3]
+                cfg = call(lambda: {7: crcmod.Crc7, 8: crcmod.Crc8, 9: crcmod.Crc9, 16: crcmod.Crc16, 32: crcmod.Crc32}[w].ETSI_DMR)
+                cd = None
+            if is_err(cfg):
+                self.slots[slot] = dict(dead=True)
+                return cfg
+            if kind in ("cb", "ct"):
+                calc = call(crcmod.BitCrcCalculator, cfg, kind == "ct")
+                reg = calc if is_err(calc) else getattr(calc, "_crc_register", None)
+            else:
+                calc = None
+                reg = call(crcmod.TableBasedBitCrcRegister if kind == "t" else crcmod.BitCrcRegister, cfg)
+            if is_err(reg) or reg is None:
+                self.slots[slot] = dict(dead=True)
+                return reg if is_err(reg) else "ERR no-register"
+            self.slots[slot] = dict(reg=reg, calc=calc, cfg=cd, w=w, kind=kind, outs=[], acts=[], dead=False, fed=[], clean=True, model_dead=False)
+            return "="
+        if op == "scribble":
+            if self.last is not None and isinstance(self.last[0], bitarray):
+                o = self.last[0]
+                try:
+                    {"reverse": o.reverse, "invert": o.invert, "setall1": lambda: o.setall(1), "setall0": lambda: o.setall(0),
+                     "shl": lambda: o.__ilshift__(1), "bytereverse": o.bytereverse, "flip-first": lambda: o.invert(0) if len(o) else None,
+                     "extend": lambda: o.extend([1, 0, 1]), "clear": o.clear}[st[1]]()
+                except BaseException:  # noqa  (the returned object may be immutable: fine)
+                    pass
+                self.last[1] = out_bits(o)
+            return "="
+        if op == "cache_clear":
+            cc = getattr(getattr(crcmod, "bits_create_lookup_table", None), "cache_clear", None)
+            if cc is not None:
+                call(cc)
+            return "="
+        if op == "tables":
+            for w, poly in st[1]:
+                call(crcmod.bits_create_lookup_table, w, poly)
+            return "="
+        if op == "fbad":
+            # a front-end call that raises — before, or only after, its singleton calculated
+            CrcMasks = self.CrcMasks
+            fn, args = {
+                "crc16-mask-none": (self.CRC16.calculate, (b"\x12\x34\x56", None)), "crc16-data-none": (self.CRC16.calculate, (None, CrcMasks.CSBK)),
+                "crc16-check-out-of-range": (self.CRC16.check, (b"\x12\x34", 1 << 16, CrcMasks.CSBK)), "crc32-data-none": (self.CRC32.calculate, (None,)),
+                "crc32-check-negative": (self.CRC32.check, (b"\x12\x34", -1)), "crc9-serial-300": (self.CRC9.calculate_from_parts, (b"\x12\x34", 300, CrcMasks.Rate34DataContinuation)),
+                "crc9-crc32-3-octets": (self.CRC9.calculate_from_parts, (b"\x12\x34", 3, CrcMasks.Rate34DataContinuation, b"\x01\x02\x03")),
+                "crc9-mask-none": (self.CRC9.calculate_from_parts, (b"\x12\x34", 3, None)), "crc9-check-out-of-range": (self.CRC9.check, (b"\x12", 3, 512, CrcMasks.Rate34DataContinuation)),
+                "crc8-data-none": (self.CRC8.calculate, (None,)), "crc8-check-out-of-range": (self.CRC8.check, (bitarray("1011"), 256)),
+            }[st[1]]
+            r = call(fn, *args)
+            return r if is_err(r) else "no-exception"
+        if op in ("f8", "f16", "f9", "f32"):
+            if op == "f8":
+                bits = [int(c) for c in st[1]] if st[1] != "-" else []
+                r, good = call(self.CRC8.calculate, bitarray(bits)), rem_int(bits, 8)
+            elif op == "f16":
+                d = bytes.fromhex(st[1])
+                r, good = call(self.CRC16.calculate, d, self.CrcMasks[st[2]]), (rem_int(bytes_bits(d), 16) ^ 0xFFFF) ^ ETSI_MASKS[st[2]]
+            elif op == "f9":
+                d = bytes.fromhex(st[1])
+                r = call(self.CRC9.calculate_from_parts, d, st[2], self.CrcMasks[st[3]])
+                good = (rem_int(bytes_bits(d) + [(st[2] >> (6 - k)) & 1 for k in range(7)], 9) ^ 0x1FF) ^ ETSI_MASKS[st[3]]
+            else:
+                d = bytes.fromhex(st[1])
+                r, good = call(self.CRC32.calculate, d), rem_int(bytes_bits(ref_byteswap(d)), 32)
+            if r != good:
+                self.problems.append(("front-end-in-history", f"front-end call {st} in the middle of the history returns a wrong check sum", good, out_int(r), self.n))
+            return out_int(r)
+        # ---- calls on a slot
+        s = self.slots.get(st[1])
+        if s is None or s.get("dead"):
+            return "ERR no-slot"
+        reg, calc = s["reg"], s["calc"]
+        c_ = s["cfg"]
+        # standard = the enum member, or a configuration whose every field equals it (the feed width given explicitly or derived)
+        std = c_ is None or (c_["w"] in ETSI and c_["poly"] == ETSI[c_["w"]] and c_["fw"] in (0, ref_feed_width(c_["w"])) and not (c_["init"] or c_["xorout"] or c_["revIn"] or c_["revOut"]))
+        w = s["w"]
+        out, act, observed = None, None, True
+
+        def rem_s(bits):
+            return "".join(str(x) for x in poly_rem(bits, w))
+
+        if op == "i":
+            out, act, observed = call(reg.init), "i", False
+            s["fed"], s["clean"] = [], True
+        elif op == "u":
+            bits = [int(c) for c in st[2]] if st[2] != "-" else []
+            arg = self._mk_bits(st[2], st[3])
+            before = arg.tolist()
+            out = self._ret(call(reg.update, arg))
+            act = ("v:" if st[3] == "little" else "u:") + st[2]
+            if arg.tolist() != before:
+                self.problems.append(("input-mutated", f"update() altered the caller's bit buffer (step {st})", st[2], barg(bitarray(arg.tolist())), self.n))
+            if st[3] == "little":
+                s["clean"] = False  # the table register reads a little-endian chunk as an integer: model only
+            s["fed"] = s["fed"] + bits
+            if std and s["clean"] and out_bits(out) != rem_s(s["fed"]):
+                self.problems.append(("stream-not-remainder", f"update() on a standard {CFG_NAMES[w]} register ({s['kind']}) does not return the remainder of what was fed since init()", rem_s(s["fed"]), out_bits(out), self.n))
+        elif op == "d":
+            out, act = self._ret(call(reg.digest)), "d"
+            if std and s["clean"] and out_bits(out) != rem_s(s["fed"]):
+                self.problems.append(("stream-not-remainder", f"digest() on a standard {CFG_NAMES[w]} register ({s['kind']}) is not the remainder of what was fed since init()", rem_s(s["fed"]), out_bits(out), self.n))
+        elif op == "r":
+            out, act = self._ret(call(reg.reverse)), "r"
+            s["clean"] = False
+        elif op == "g":
+            out, act = self._ret(call(lambda: reg.register)), "g"
+            if std and s["clean"] and out_bits(out) != rem_s(s["fed"]):
+                self.problems.append(("stream-not-remainder", f".register of a standard {CFG_NAMES[w]} register ({s['kind']}) is not the remainder of what was fed since init()", rem_s(s["fed"]), out_bits(out), self.n))
+        elif op == "w":
+            mine = bitarray(st[2])
+
+            def assign():
+                reg.register = mine
+
+            out, act, observed = call(assign), "w:" + st[2], False
+            mine.setall(1)  # the caller re-uses its buffer
+            mine.reverse()
+            s["clean"] = False
+        elif op in ("s", "y"):
+            if calc is None:
+                return "ERR no-calculator"
+            bits = [int(c) for c in st[2]] if st[2] != "-" else []
+            if op == "s":
+                out, act = self._ret(call(calc.calculate_checksum, bitarray(bits))), "s:" + st[2]
+                if std and out_bits(out) != rem_s(bits):
+                    self.problems.append(("table-not-remainder" if s["kind"] == "ct" else "bitwise-not-remainder", f"calculate_checksum of a standard {CFG_NAMES[w]} calculator ({s['kind']}) in the middle of the history", rem_s(bits), out_bits(out), self.n))
+            else:
+                out, act = call(calc.verify_checksum, bitarray(bits), st[3]), f"y:{st[2]}:{st[3]}"
+                if std and out is not (st[3] == rem_int(bits, w)):
+                    self.problems.append(("verify-not-exact", f"verify_checksum of a standard {CFG_NAMES[w]} calculator ({s['kind']}) in the middle of the history", st[3] == rem_int(bits, w), str(out), self.n))
+                out = out if is_err(out) else bitarray([1 if out else 0])
+            s["fed"], s["clean"] = bits, True
+        elif op == "bad":
+            what = st[2]
+            if what == "update-none":
+                out = call(reg.update, None)
+            elif what == "update-int":
+                out = call(reg.update, 5)
+            elif what == "sum-none" and calc is not None:
+                out, act = call(calc.calculate_checksum, None), "i"
+                s["fed"], s["clean"] = [], True
+            elif what == "verify-none" and calc is not None:
+                out, act = call(calc.verify_checksum, None, 0), "i"
+                s["fed"], s["clean"] = [], True
+            else:
+                out = "ERR skipped"
+            observed = False
+            canon = out if is_err(out) else "no-exception"
+            if act and not s["model_dead"]:
+                s["acts"].append(act)
+            return canon
+        else:
+            return "ERR unknown-step"
+        canon = out if is_err(out) else (out_bits(out) if isinstance(out, bitarray) else "=")
+        if not s["model_dead"]:
+            s["acts"].append(act)
+            if is_err(out):
+                s["outs"].append(out)
+                s["model_dead"] = True  # the model ends a call sequence at the first exception
+            elif observed:
+                s["outs"].append(canon)
+        if is_err(out):
+            s["clean"] = False
+        return canon
+
+    def run(self, steps):
+        return [self.step(st) for st in steps]
+
+    def held_changed(self):
+        for obj, was, at in self.held:
+            if out_bits(obj) != was:
+                return at, was, out_bits(obj)
+        return None
+
+    def model_pairs(self):
+        """(line, implementation output) per slot, for the correspondence with `crc.cfg`"""
+        pairs = []
+        for name, s in self.slots.items():
+            if s.get("dead") or not s["acts"]:
+                continue
+            c = s["cfg"] or dict(w=s["w"], poly=ETSI[s["w"]], fw=0, init=0, xorout=0, revIn=0, revOut=0)
+            if c["revIn"] and any(a[:2] in ("u:", "v:", "s:", "y:") and (0 if a.split(":")[1] == "-" else len(a.split(":")[1])) % 8 for a in s["acts"]):
+                continue  # bytereverse of a partial last octet depends on the pad bits of the buffer: not modelled
+            line = f"crc.cfg {c['w']} {c['poly']} {c['fw']} {c['init']} {c['xorout']} {c['revIn']} {c['revOut']} {'t' if s['kind'] in ('t', 'ct') else 'b'} " + " ".join(s["acts"])
+            pairs.append((line, ",".join(s["outs"]) if s["outs"] else "="))
+        return pairs
+
+
+def tables_now(crcmod, fronts):
+    """every lookup table reachable for the five ETSI (width, polynomial) keys: the cached one through the public
+    function and (white box, when the attributes exist) the ones the CALC singletons hold — as {(where, w): list}"""
+    out = {}
+    for w in ETSI:
+        t = call(crcmod.bits_create_lookup_table, w, ETSI[w])
+        out[("bits_create_lookup_table", w)] = t
+    for cls in fronts:
+        reg = getattr(getattr(cls, "CALC", None), "_crc_register", None)
+        t = getattr(reg, "_lookup_table", None)
+        w = getattr(getattr(reg, "_config", None), "width_bits", None)
+        if isinstance(t, list) and w in ETSI and not any(t is o for o in out.values()):
+            out[(cls.__name__ + ".CALC", w)] = t
+    return out
+
+
+def check_tables(crcmod, fronts, heal=True):
+    """[(where, w, index, expected, actual)] — entries that are no longer the remainder of their index; healed in place"""
+    bad = []
+    for (where, w), t in tables_now(crcmod, fronts).items():
+        ref = ref_table(w)
+        if is_err(t) or not isinstance(t, list):
+            bad.append((where, w, -1, f"{len(ref)} entries", str(t) if is_err(t) else type(t).__name__))
+            continue
+        if len(t) != len(ref):
+            bad.append((where, w, -1, f"{len(ref)} entries", f"{len(t)} entries"))
+            if heal:
+                t[:] = [bitarray(e) for e in ref]
+            continue
+        for i, (e, r) in enumerate(zip(t, ref)):
+            got = e.to01() if isinstance(e, bitarray) else repr(type(e))
+            if got != r:
+                bad.append((where, w, i, r, got))
+                if heal:
+                    t[i] = bitarray(r)
+    return bad
+
+
+class StdProbe:
+    """the standard engines, verified again after a history: calculators that were constructed BEFORE the histories
+    (held) and freshly constructed ones, both register kinds, plus the front ends — on every one-chunk message
+    (each lookup table entry is the answer to one of them) and a few longer ones"""
+
+    def __init__(self, libs):
+        self.libs = libs
+        crcmod = libs[0]
+        self.enums = {7: crcmod.Crc7, 8: crcmod.Crc8, 9: crcmod.Crc9, 16: crcmod.Crc16, 32: crcmod.Crc32}
+        self.held = {(w, tb): call(crcmod.BitCrcCalculator, en.ETSI_DMR, tb) for w, en in self.enums.items() for tb in (False, True)}
+
+    def probe(self, rng, widths=None, full=True):
+        """first wrong answer as (probe dict, expected, actual), else None"""
+        crcmod, CRC8, CRC9, CRC16, CRC32, CrcMasks = self.libs
+        for w in widths or list(ETSI):
+            fw = ref_feed_width(w)
+            ref = ref_table(w)
+            idxs = range(1 << fw) if full else sorted(rng.sample(range(1 << fw), 24))
+            engines = [("held-table", self.held[(w, True)]), ("new-table", call(crcmod.BitCrcCalculator, self.enums[w].ETSI_DMR, True)),
+                       ("new-bitwise", call(crcmod.BitCrcCalculator, self.enums[w].ETSI_DMR, False)), ("held-bitwise", self.held[(w, False)])]
+            for ename, calc in engines:
+                if is_err(calc):
+                    return {"engine": ename, "config": CFG_NAMES[w], "bits": "-"}, "a calculator", calc
+                sub = idxs if ename == "held-table" else list(idxs)[:: max(1, len(idxs) // 24)]
+                for i in sub:
+                    bits = format(i, f"0{fw}b")
+                    r = out_bits(call(calc.calculate_checksum, bitarray(bits)))
+                    if r != ref[i]:
+                        return {"engine": ename, "config": CFG_NAMES[w], "bits": bits}, ref[i], r
+                # two chunks and a tail: every step of the table register looks an entry up
+                for _ in range(3):
+                    n = rng.choice([2 * fw, 3 * fw, 2 * fw + rng.randint(1, fw - 1)])
+                    b = [rng.getrandbits(1) for _ in range(n)]
+                    exp = "".join(str(x) for x in poly_rem(b, w))
+                    r = out_bits(call(calc.calculate_checksum, bitarray(b)))
+                    if r != exp:
+                        return {"engine": ename, "config": CFG_NAMES[w], "bits": barg(bitarray(b))}, exp, r
+        # front ends (their singletons hold table registers)
+        for i in (range(256) if full else sorted(rng.sample(range(256), 16))):
+            d = bytes([i])
+            r = call(CRC8.calculate, bitarray(format(i, "08b")))
+            if r != rem_int(bytes_bits(d), 8):
+                return {"engine": "CRC8.calculate", "bits": format(i, "08b")}, rem_int(bytes_bits(d), 8), out_int(r)
+            r = call(CRC16.calculate, d + d, CrcMasks.CSBK)
+            if r != (rem_int(bytes_bits(d + d), 16) ^ 0xFFFF) ^ ETSI_MASKS["CSBK"]:
+                return {"engine": "CRC16.calculate", "data": (d + d).hex(), "mask": "CSBK"}, (rem_int(bytes_bits(d + d), 16) ^ 0xFFFF) ^ ETSI_MASKS["CSBK"], out_int(r)
+            r = call(CRC32.calculate, d + b"\x01")
+            if r != rem_int(bytes_bits(b"\x01" + d), 32):
+                return {"engine": "CRC32.calculate", "data": (d + b"\x01").hex()}, rem_int(bytes_bits(b"\x01" + d), 32), out_int(r)
+        for i in (range(512) if full else sorted(rng.sample(range(512), 16))):
+            # 2 octets + 7-bit serial number = 23 bits: the first 9-bit chunk takes every value
+            d = bytes([i >> 1, (i & 1) << 7 | 0x15])
+            r = call(CRC9.calculate_from_parts, d, 77, CrcMasks.Rate34DataContinuation)
+            good = (rem_int(bytes_bits(d) + [(77 >> (6 - k)) & 1 for k in range(7)], 9) ^ 0x1FF) ^ ETSI_MASKS["Rate34DataContinuation"]
+            if r != good:
+                return {"engine": "CRC9.calculate_from_parts", "data": d.hex(), "serial": 77, "mask": "Rate34DataContinuation"}, good, out_int(r)
+        return None
+
+
+def rand_msg(rng, c, aligned=None):
+    """a message for configuration dict c as a 0/1 string: mostly whole chunks of the effective feed width (the last
+    step of a table register is then a table step), sometimes with a tail, sometimes empty; whole octets when
+    reverse_input_bytes is on"""
+    fw = eff_fw(c)
+    if c["revIn"]:
+        n = 8 * rng.choice([1, 2, 3, 7, 9, rng.randint(1, 12)]) if fw not in (7, 9) or rng.random() < 0.5 else 8 * fw * rng.randint(1, 2)
+    else:
+        aligned = rng.random() < 0.6 if aligned is None else aligned
+        n = fw * rng.randint(1, 4) if aligned else rng.choice([0, 1, fw - 1, fw + 1, rng.randint(0, 4 * fw)])
+    n = max(0, min(n, 160))
+    kind = rng.choice(["random", "random", "random", "ones", "zeros"])
+    bits = [1] * n if kind == "ones" else [0] * n if kind == "zeros" else [rng.getrandbits(1) for _ in range(n)]
+    return "".join(map(str, bits)) or "-"
+
+
+FRONT_BAD = ["crc16-mask-none", "crc16-data-none", "crc16-check-out-of-range", "crc32-data-none", "crc32-check-negative", "crc9-serial-300", "crc9-crc32-3-octets",
+             "crc9-mask-none", "crc9-check-out-of-range", "crc8-data-none", "crc8-check-out-of-range"]
+SCRIBBLES = ["reverse", "invert", "setall1", "setall0", "shl", "bytereverse", "flip-first", "extend", "clear"]
+
+
+def gen_history(rng, w, variants, family):
+    """a history for width w: one or two registers / calculators of non-default configurations next to standard ones
+    of the same width (and of the width whose table shares the polynomial), random public calls interleaved"""
+    steps, slots = [], []
+    masks16 = ["CSBK", "DataHeader", "PiHeader", "MBCHeader"]
+
+    def add(slot, kind, c):
+        if c is None:
+            steps.append(["std", slot, kind, w])
+            slots.append((slot, kind, dict(w=w, poly=ETSI[w], fw=0, init=0, xorout=0, revIn=0, revOut=0), True))
+        else:
+            steps.append(["new", slot, kind, c["w"], c["poly"], c["fw"], c["init"], c["xorout"], c["revIn"], c["revOut"]])
+            slots.append((slot, kind, c, False))
+
+    if family == "cache-clear-first":
+        steps.append(["cache_clear"])
+    if family == "error-first":
+        # the first call on a freshly constructed object is a failing one
+        add("e0", rng.choice(["cb", "ct"]), None)
+        steps.append(["bad", "e0", rng.choice(["sum-none", "verify-none", "update-none", "update-int"])])
+    picks = rng.sample(variants, rng.choice([1, 1, 2]))
+    order = rng.random()
+    if order < 0.5:
+        add("s0", rng.choice(["t", "ct", "ct", "b", "cb"]), None)
+    for k, (lab, c) in enumerate(picks):
+        add(f"n{k}", rng.choice(["t", "ct", "t", "ct", "b", "cb"]), c)
+    if order >= 0.5 or rng.random() < 0.5:
+        add("s1", rng.choice(["t", "ct"]), None)
+    if family == "reverse-on-standard":
+        add("s2", rng.choice(["t", "ct"]), None)
+    for _ in range(rng.randint(6, 22)):
+        slot, kind, c, std = rng.choice(slots)
+        calc = kind in ("cb", "ct")
+        ops = ["i", "u", "u", "u", "d", "d", "g", "scribble", "front"]
+        if calc:
+            ops += ["s", "s", "y"]
+        if not std or family == "reverse-on-standard":
+            ops += ["r", "r", "w"]
+        if family in ("error-path", "error-first"):
+            ops += ["bad", "bad", "fbad", "fbad"]
+        op = rng.choice(ops)
+        if op in ("i", "d", "r", "g"):
+            steps.append([op, slot])
+        elif op == "u":
+            how = rng.choice(["big"] * 6 + ["frozen", "readonly", "little"])
+            if c["revIn"] and how == "frozen":
+                how = "big"
+            steps.append(["u", slot, rand_msg(rng, c), how])
+            if rng.random() < 0.35:
+                steps.append([rng.choice(["r", "d", "g", "d"]) if (not std or family == "reverse-on-standard") else rng.choice(["d", "g"]), slot])
+        elif op == "w":
+            steps.append(["w", slot, "".join(str(rng.getrandbits(1)) for _ in range(c["w"]))])
+        elif op == "s":
+            steps.append(["s", slot, rand_msg(rng, c)])
+        elif op == "y":
+            m = rand_msg(rng, c)
+            good = rem_int([int(x) for x in m] if m != "-" else [], c["w"]) if (c["poly"] == ETSI.get(c["w"]) and not (c["init"] or c["xorout"] or c["revIn"] or c["revOut"])) else rng.getrandbits(c["w"])
+            steps.append(["y", slot, m, rng.choice([good, good, good ^ 1, _bitrev(good, c["w"]), 0])])
+        elif op == "bad":
+            steps.append(["bad", slot, rng.choice(["update-none", "update-int", "sum-none", "verify-none"])])
+        elif op == "scribble":
+            steps.append(["scribble", rng.choice(SCRIBBLES)])
+        elif op == "fbad":
+            steps.append(["fbad", rng.choice(FRONT_BAD)])
+            steps.append([rng.choice(["f16", "f16"]), bytes(rng.getrandbits(8) for _ in range(rng.randint(1, 12))).hex(), rng.choice(masks16)] if rng.random() < 0.5
+                         else ["f32", bytes(rng.getrandbits(8) for _ in range(rng.randint(1, 12))).hex()])
+        else:
+            f = rng.choice(["f8", "f16", "f9", "f32"])
+            if f == "f8":
+                steps.append(["f8", "".join(str(rng.getrandbits(1)) for _ in range(rng.choice([8, 16, 36, rng.randint(1, 40)])))])
+            elif f == "f16":
+                steps.append(["f16", bytes(rng.getrandbits(8) for _ in range(rng.randint(1, 12))).hex(), rng.choice(masks16)])
+            elif f == "f9":
+                steps.append(["f9", bytes(rng.getrandbits(8) for _ in range(rng.choice([2, 10, 11, 16]))).hex(), rng.randrange(128), rng.choice(["Rate12DataContinuation", "Rate34DataContinuation", "Rate1DataContinuation"])])
+            else:
+                steps.append(["f32", bytes(rng.getrandbits(8) for _ in range(rng.randint(1, 12))).hex()])
+    return steps, "+".join(lab for lab, _ in picks)
+
+
+def systematic_history(rng, w, lab, c, kind):
+    """the shortest history of its kind: a non-default object digests one message (whole chunks), is asked for its
+    digest, reversed, read; a standard calculator of the same width works before and after"""
+    m1, m2 = rand_msg(rng, c, aligned=True), rand_msg(rng, c, aligned=True)
+    steps = [["std", "s0", "ct", w], ["s", "s0", rand_msg(rng, dict(c, w=w, fw=0, revIn=0), aligned=True)],
+             ["new", "n0", kind, c["w"], c["poly"], c["fw"], c["init"], c["xorout"], c["revIn"], c["revOut"]],
+             ["i", "n0"], ["u", "n0", m1, "big"], ["d", "n0"], ["r", "n0"], ["g", "n0"], ["u", "n0", m2, "big"], ["r", "n0"], ["r", "n0"], ["d", "n0"]]
+    if kind in ("cb", "ct"):
+        steps += [["s", "n0", m1], ["r", "n0"], ["s", "n0", m2], ["y", "n0", m2, 0]]
+    steps += [["s", "s0", rand_msg(rng, dict(c, w=w, fw=0, revIn=0))]]
+    return steps
+
+
+def history_cases(ctx, libs):
+    """see the comment block above `Hist`.  Run after everything else (a violation found here is healed in place, but
+    may have left other process-wide state behind)."""
+    rng = ctx.rng
+    crcmod, CRC8, CRC9, CRC16, CRC32, CrcMasks = libs
+    fronts = (CRC8, CRC9, CRC16, CRC32)
+    probe = StdProbe(libs)
+    pairs = []
+    reported = [0]
+
+    def verdict(steps, h, tag, full_probe):
+        """verdict on one executed history: what the history itself showed on standard objects, held results, the
+        lookup tables (compared entry by entry with the reference), and — always when a table differs, else every
+        now and then — the standard engines and front ends as black boxes"""
+        wrong = [(kind, {"step": at}, what, exp, act) for kind, what, exp, act, at in h.problems]
+        ch = h.held_changed()
+        if ch:
+            wrong.append(("result-aliased", {"step": ch[0]}, "a bit string returned by a call of the history changed while the history went on", ch[1], ch[2]))
+        bad = check_tables(crcmod, fronts, heal=False)
+        if bad or full_probe:
+            pr = probe.probe(rng, sorted({b[1] for b in bad}) or None, full=bool(bad) or full_probe == "full")
+            ctx.count("history:standard-engines-probed-as-black-boxes")
+            if pr:
+                wrong.append(("history-breaks-standard-engine", {"probe": pr[0]}, f"after the history a standard engine returns a wrong check sum for {pr[0]}", pr[1], pr[2]))
+        if bad:
+            where, w, i, exp, act = bad[0]
+            wrong.append(("lookup-table-poisoned", {"table": where, "config": CFG_NAMES[w], "index": i, "entries_wrong": len(bad)},
+                          f"after the history the process-wide lookup table of {CFG_NAMES[w]} ({where}) no longer holds the remainder of its index at entry {i}: "
+                          f"standard {CFG_NAMES[w]} table calculators and front ends return wrong check sums for every message that reaches the entry", exp, act))
+            check_tables(crcmod, fronts, heal=True)  # the next history starts from sound tables again
+        ctx.count("history:lookup-tables-compared")
+        for kind, extra, what, exp, act in wrong:
+            if reported[0] < 30:
+                reported[0] += 1
+                ctx.fail(kind, dict({"component": "history", "family": tag, "history": steps}, **extra), what, expected=exp, actual=act)
+        return bool(wrong)
+
+    def execute(steps, tag, full_probe=False):
+        h = Hist(libs)
+        h.run(steps)
+        verdict(steps, h, tag, full_probe)
+        pairs.extend(h.model_pairs())
+        ctx.case(("history", json.dumps(steps)))
+        return h
+
+    # the state everything before left behind is sound (else the histories are not to blame)
+    verdict([], Hist(libs), "before-any-history", "full")
+    k = 0
+    # ---- systematic: every variant x every ETSI width x table register / table calculator
+    for w in ETSI:
+        variants = cfg_variants(rng, w)
+        for lab, c in variants:
+            for kind in ("t", "ct") + (("b",) if ctx.thorough() else ()):
+                k += 1
+                execute(systematic_history(rng, w, lab, c, kind), f"systematic/{lab}", full_probe=(k % 16 == 0))
+                ctx.count(f"history:systematic:{lab}")
+        verdict([], Hist(libs), f"systematic/{CFG_NAMES[w]}/end", "full")
+    # ---- random histories
+    families = ["flags", "flags", "reverse-on-standard", "error-path", "error-first", "cache-clear-first", "flags"]
+    for i in range(ctx.budget(70, 500)):
+        w = list(ETSI)[i % 5]
+        fam = families[(i // 5) % len(families)]
+        steps, labs = gen_history(rng, w, cfg_variants(rng, w), fam)
+        execute(steps, f"{fam}/{labs}", full_probe=(i % 16 == 15))
+        ctx.count(f"history:{fam}:{CFG_NAMES[w]}")
+        ctx.count("history:steps", len(steps))
+    verdict([], Hist(libs), "random/end", "full")
+    # ---- more (width, polynomial) keys than the cache holds, then the standard ones again
+    keys = [[w, p] for w in (3, 4, 5, 6) for p in range(1, 1 << w)] + [[7, p] for p in rng.sample([q for q in range(1, 128) if q != ETSI[7]], 30)]
+    rng.shuffle(keys)  # 146 keys, functools.lru_cache keeps 128
+    steps = [["std", "s0", "ct", 9], ["s", "s0", "101100111"], ["tables", keys]] + [["std", f"s{w}", "ct", w] for w in ETSI] + [["s", f"s{w}", rand_msg(rng, dict(w=w, fw=0, revIn=0), aligned=True)] for w in ETSI]
+    execute(steps, "cache-eviction", full_probe="full")
+    ctx.count("history:cache-eviction:keys", len(keys))
+    if not ctx.search_only and ctx.driver_ok:
+        ctx.correspond("histories.any-configuration", pairs)
+
+
+# ------------------------------------------------------------------------------------------------
+# (3) argument provenance, correlated inputs, very long messages
+def provenance_cases(ctx, crcmod, CRC8, CRC9, CRC16, CRC32, CrcMasks):
+    """the same message handed over as objects of different provenance must get the same (right) check sum, and
+    must not be changed: frozenbitarray, a bitarray importing a read-only buffer, a slice copy, a bitarray made
+    by the library's own bytes_to_bits, the calculator's own previous result; bytes / bytearray / memoryview /
+    bytes produced by another code path (bitarray.tobytes, byteswap_bytes) for the byte-oriented front ends"""
+    from bitarray import frozenbitarray
+
+    rng = ctx.rng
+    enums = {7: crcmod.Crc7, 8: crcmod.Crc8, 9: crcmod.Crc9, 16: crcmod.Crc16, 32: crcmod.Crc32}
+    try:
+        from okdmr.dmrlib.utils.bits_bytes import bytes_to_bits, byteswap_bytes
+    except BaseException:  # noqa
+        bytes_to_bits = byteswap_bytes = None
+    for w, en in enums.items():
+        name = CFG_NAMES[w]
+        for tb in (False, True):
+            calc = call(crcmod.BitCrcCalculator, en.ETSI_DMR, tb)
+            if is_err(calc):
+                continue
+            for _ in range(ctx.budget(6, 40)):
+                nb = rng.randint(1, 14)
+                d = bytes(rng.getrandbits(8) for _ in range(nb))
+                bits = bytes_bits(d)
+                exp = "".join(str(x) for x in poly_rem(bits, w))
+                big = bitarray(bits)
+                forms = [("frozenbitarray", lambda: frozenbitarray(big)), ("read-only-buffer", lambda: bitarray(buffer=d)),
+                         ("writable-buffer", lambda: bitarray(buffer=bytearray(d))), ("slice-of-longer", lambda: (bitarray([1, 0, 1]) + big + bitarray([1]))[3:-1]),
+                         ("memoryview-import", lambda: bitarray(buffer=memoryview(d)))]
+                if bytes_to_bits is not None:
+                    forms.append(("library-bytes_to_bits", lambda: bytes_to_bits(d)))
+                for lab, mk in forms:
+                    arg = call(mk)
+                    if is_err(arg):
+                        continue
+                    r = out_bits(call(calc.calculate_checksum, arg))
+                    ctx.case((name, tb, "provenance", lab, d))
+                    ctx.count(f"provenance:engine:{lab}")
+                    if r != exp or arg.tolist() != bits:
+                        ctx.fail("table-not-remainder" if tb else "bitwise-not-remainder", {"component": "engine", "config": name, "bits": barg(big), "previous": None, "argument": lab},
+                                 f"{name}: the message handed over as {lab} gets another check sum than the remainder (or was altered)", expected=exp, actual=r)
+                # the calculator's own result fed back (crc of the crc), the result object must survive
+                r1 = call(calc.calculate_checksum, bitarray(big))
+                if isinstance(r1, bitarray):
+                    keep = out_bits(r1)
+                    r2 = out_bits(call(calc.calculate_checksum, r1))
+                    exp2 = "".join(str(x) for x in poly_rem([int(c) for c in keep], w))
+                    ctx.case((name, tb, "own-result-as-input", d))
+                    ctx.count("provenance:engine:own-result-as-input")
+                    if r2 != exp2 or out_bits(r1) != keep:
+                        ctx.fail("result-aliased", {"component": "engine", "config": name, "bits": keep, "previous": barg(big), "argument": "the calculator's own previous result object"},
+                                 f"{name}: calculate_checksum fed with its own previous result object", expected=f"{exp2}, argument still {keep}", actual=f"{r2}, argument now {out_bits(r1)}")
+    for _ in range(ctx.budget(40, 300)):
+        d = bytes(rng.getrandbits(8) for _ in range(rng.choice([1, 2, 3, 10, 12, rng.randint(0, 30)])))
+        forms = [("bytearray", bytearray(d)), ("memoryview", memoryview(d)), ("bitarray.tobytes", bitarray(bytes_bits(d)).tobytes()), ("bytes-slice", (b"\x00" + d + b"\xff")[1:-1])]
+        if byteswap_bytes is not None:
+            forms.append(("library-byteswap-twice", call(lambda: bytes(byteswap_bytes(byteswap_bytes(d))))))
+        m = rng.choice(list(CrcMasks))
+        sn = rng.randrange(128)
+        g16 = (rem_int(bytes_bits(d), 16) ^ 0xFFFF) ^ ETSI_MASKS.get(m.name, m.value)
+        g32 = rem_int(bytes_bits(ref_byteswap(d)), 32)
+        g9 = (rem_int(bytes_bits(d) + [(sn >> (6 - k)) & 1 for k in range(7)], 9) ^ 0x1FF) ^ ETSI_MASKS.get(m.name, m.value)
+        for lab, arg in forms:
+            if is_err(arg):
+                continue
+            snapshot = bytes(arg)
+            res = [("crc16", call(CRC16.calculate, arg, m), g16, {"component": "crc16", "data": hex_str(d), "mask": m.name}),
+                   ("crc32", call(CRC32.calculate, arg), g32, {"component": "crc32", "data": hex_str(d)}),
+                   ("crc9", call(CRC9.calculate_from_parts, arg, sn, m), g9, {"component": "crc9", "data": hex_str(d), "serial": sn, "mask": m.name, "crc32": "none"})]
+            for comp, r, good, inp in res:
+                ctx.case((comp, "provenance", lab, d, m.name, sn))
+                ctx.count(f"provenance:{comp}:{lab}")
+                # an argument type the front end refuses on the unchanged tree is not part of the property: only wrong VALUES count
+                if not is_err(r) and r != good:
+                    ctx.fail(f"{comp}-front", dict(inp, argument=lab), f"{comp}: data handed over as {lab} gets another check sum", expected=good, actual=out_int(r))
+            if bytes(arg) != snapshot:
+                ctx.fail("input-mutated", {"component": "front", "data": hex_str(d), "argument": lab}, "a front end altered the caller's buffer", expected=snapshot.hex(), actual=bytes(arg).hex())
+
+
+def correlated_cases(ctx, crcmod, CRC8, CRC9, CRC16, CRC32, CrcMasks):
+    """inputs whose parts are correlated through the check sum itself: the message followed by / preceded by /
+    wrapped around its own check sum (in every octet / bit order and with / without inversion and mask), the
+    CRC-9 `crc32` part being the CRC-32 of the data (the real use), data made of the mask / the polynomial, the
+    serial number equal to bits of the check sum; check() on such inputs with the embedded value and the right one"""
+    rng = ctx.rng
+    masks = list(CrcMasks)
+    pairs16, pairs32, pairs9, pairs8, pairs_e = [], [], [], [], []
+    enums = {7: crcmod.Crc7, 8: crcmod.Crc8, 9: crcmod.Crc9, 16: crcmod.Crc16, 32: crcmod.Crc32}
+    # ---- raw engines: code words (remainder 0), code word + own remainder again, with the check sum in front
+    for w, en in enums.items():
+        name = CFG_NAMES[w]
+        calcs = [(call(crcmod.BitCrcCalculator, en.ETSI_DMR, False), "b"), (call(crcmod.BitCrcCalculator, en.ETSI_DMR, True), "t")]
+        if any(is_err(c) for c, _ in calcs):
+            continue
+        for _ in range(budget2(ctx, 10, 60)):
+            n = rng.choice([rng.randint(1, 60), ref_feed_width(w) * rng.randint(1, 5), 80])
+            m = [rng.getrandbits(1) for _ in range(n)]
+            c = poly_rem(m, w)
+            for lab, msg in (("message+crc", m + c), ("message+crc+crc", m + c + c), ("crc+message", c + m), ("message+reversed-crc", m + c[::-1]),
+                             ("message+inverted-crc", m + [1 - x for x in c]), ("message+crc+zeros", m + c + [0] * rng.randint(1, 2 * w)), ("crc-only", c), ("crc+crc", c + c)):
+                exp = "".join(str(x) for x in poly_rem(msg, w))
+                arg = barg(bitarray(msg))
+                for calc, mt in calcs:
+                    r = out_bits(call(calc.calculate_checksum, bitarray(msg)))
+                    pairs_e.append((f"crc.bit {name} {arg}" if mt == "b" else f"crc.tab {name} 0 {arg}", r))
+                    ctx.case((name, mt, "correlated", lab, arg))
+                    ctx.count(f"correlated:engine:{lab}")
+                    if r != exp:
+                        ctx.fail("table-not-remainder" if mt == "t" else "bitwise-not-remainder", {"component": "engine", "config": name, "bits": arg, "previous": None, "class": lab},
+                                 f"{name}: message that embeds its own check sum ({lab})", expected=exp, actual=r)
+                    good = int(exp, 2)
+                    emb = int("".join(map(str, c)), 2)
+                    for v in dict.fromkeys((good, emb, 0)):
+                        rv = call(calc.verify_checksum, bitarray(msg), v)
+                        ctx.case((name, mt, "correlated-verify", lab, arg, v))
+                        if rv is not (v == good):
+                            ctx.fail("verify-not-exact", {"component": "verify", "config": name, "bits": arg, "value": v, "table": mt == "t", "class": lab},
+                                     f"{name}.verify_checksum on a message that embeds its own check sum ({lab})", expected=(v == good), actual=str(rv))
+    # ---- byte-oriented front ends
+    for k in range(budget2(ctx, 40, 300)):
+        d = bytes(rng.getrandbits(8) for _ in range(rng.choice([2, 4, 8, 10, 10, 12, rng.randint(1, 30)])))
+        m = masks[k % len(masks)]
+        mv = ETSI_MASKS.get(m.name, m.value)
+        c16 = ((rem_int(bytes_bits(d), 16) ^ 0xFFFF) ^ mv) & 0xFFFF
+        p16 = rem_int(bytes_bits(d), 16)
+        c32 = rem_int(bytes_bits(ref_byteswap(d)), 32)
+        datas16 = [("data+crc-be", d + c16.to_bytes(2, "big")), ("data+crc-le", d + c16.to_bytes(2, "little")), ("data+plain-remainder", d + p16.to_bytes(2, "big")),
+                   ("crc+data", c16.to_bytes(2, "big") + d), ("data+crc+crc", d + c16.to_bytes(2, "big") * 2), ("mask-octets", (mv & 0xFFFF).to_bytes(2, "big") * rng.randint(1, 5)),
+                   ("polynomial-octets", b"\x10\x21" * rng.randint(1, 5)), ("data+mask", d + (mv & 0xFFFF).to_bytes(2, "big"))]
+        for lab, dd in datas16:
+            good = (rem_int(bytes_bits(dd), 16) ^ 0xFFFF) ^ mv
+            r = call(CRC16.calculate, dd, m)
+            pairs16.append((f"crc16 {hex_str(dd)} {m.value}", out_int(r)))
+            ctx.case(("crc16-correlated", lab, dd, m.name))
+            ctx.count(f"correlated:crc16:{lab}")
+            if r != good:
+                ctx.fail("crc16-front", {"component": "crc16", "data": hex_str(dd), "mask": m.name, "class": lab}, f"CRC16.calculate on data that embeds its own check sum ({lab})", expected=good, actual=out_int(r))
+            for v in dict.fromkeys((good & 0xFFFF, c16, 0, 0xFFFF, mv & 0xFFFF, (mv ^ 0xFFFF) & 0xFFFF, 0x1D0F, 0xE2F0)):
+                c = call(CRC16.check, dd, v, m)
+                pairs16.append((f"crc16.check {hex_str(dd)} {v} {m.value}", out_bool(c)))
+                ctx.case(("crc16.check-correlated", lab, dd, v, m.name))
+                if c != (v == good):
+                    ctx.fail("crc16-check", {"component": "crc16.check", "data": hex_str(dd), "value": v, "mask": m.name, "class": lab}, f"CRC16.check on data that embeds its own check sum ({lab})", expected=str(v == good), actual=str(c))
+        datas32 = [("data+crc-be", d + c32.to_bytes(4, "big")), ("data+crc-le", d + c32.to_bytes(4, "little")), ("data+crc-octet-pairs-swapped", d + ref_byteswap(c32.to_bytes(4, "big"))),
+                   ("crc+data", c32.to_bytes(4, "big") + d), ("polynomial-octets", b"\x04\xc1\x1d\xb7" * rng.randint(1, 4)), ("data+crc-be+pad", d + c32.to_bytes(4, "big") + bytes(rng.randint(1, 5)))]
+        for lab, dd in datas32:
+            good = rem_int(bytes_bits(ref_byteswap(dd)), 32)
+            r = call(CRC32.calculate, dd)
+            pairs32.append((f"crc32 {hex_str(dd)}", out_int(r)))
+            ctx.case(("crc32-correlated", lab, dd))
+            ctx.count(f"correlated:crc32:{lab}")
+            if r != good:
+                ctx.fail("crc32-front", {"component": "crc32", "data": hex_str(dd), "class": lab}, f"CRC32.calculate on data that embeds its own check sum ({lab})", expected=good, actual=out_int(r))
+            for v in dict.fromkeys((good, c32, int.from_bytes(c32.to_bytes(4, "little"), "big"), int.from_bytes(good.to_bytes(4, "little"), "big"), 0, 0xFFFFFFFF, 0xC704DD7B, 0x38FB2284)):
+                c = call(CRC32.check, dd, v)
+                pairs32.append((f"crc32.check {hex_str(dd)} {v}", out_bool(c)))
+                ctx.case(("crc32.check-correlated", lab, dd, v))
+                if c != (v == good):
+                    ctx.fail("crc32-check", {"component": "crc32.check", "data": hex_str(dd), "value": v, "class": lab}, f"CRC32.check on data that embeds its own check sum ({lab})", expected=str(v == good), actual=str(c))
+        # CRC-9 whose crc32 part IS the CRC-32 of the data (as in the last block of a confirmed transmission), in every notation
+        sn = rng.randrange(128)
+        m9 = rng.choice([CrcMasks.Rate12DataContinuation, CrcMasks.Rate34DataContinuation, CrcMasks.Rate1DataContinuation])
+        mv9 = ETSI_MASKS[m9.name]
+        plain9 = rem_int(bytes_bits(d) + [(sn >> (6 - i)) & 1 for i in range(7)], 9)
+        for lab, arg in (("crc32-of-data-int", c32), ("crc32-of-data-bytes-be", c32.to_bytes(4, "big")), ("crc32-of-data-bytes-le", c32.to_bytes(4, "little")),
+                         ("crc32-equals-first-4-data-octets", (d + bytes(4))[:4]), ("serial=low-7-bits-of-crc9", None)):
+            s = sn if lab != "serial=low-7-bits-of-crc9" else ((plain9 ^ 0x1FF) ^ mv9) & 0x7F
+            if isinstance(arg, int):
+                tag, extra = f"i:{arg}", (bytes_bits(arg.to_bytes(4, "big")) if arg else [])
+            elif arg is None:
+                tag, extra = "none", []
+            else:
+                tag, extra = "b:" + arg.hex(), bytes_bits(arg)
+            good = (rem_int(bytes_bits(d) + extra + [(s >> (6 - i)) & 1 for i in range(7)], 9) ^ 0x1FF) ^ mv9
+            r = call(CRC9.calculate_from_parts, d, s, m9, arg)
+            pairs9.append((f"crc9 {hex_str(d)} {s} {m9.value} {tag}", out_int(r)))
+            ctx.case(("crc9-correlated", lab, d, s, m9.name, tag))
+            ctx.count(f"correlated:crc9:{lab}")
+            if r != good:
+                ctx.fail("crc9-front", {"component": "crc9", "data": hex_str(d), "serial": s, "mask": m9.name, "crc32": tag, "class": lab}, f"CRC9.calculate_from_parts with correlated parts ({lab})", expected=good, actual=out_int(r))
+        # a 9-bit constant straddling the boundary: last two data bits ‖ 7-bit serial number = 0, all-ones, the polynomial, a mask …
+        for t9 in (0, 0x1FF, ETSI[9], 0x0F0, 0x10F, 0x1FF ^ 0x0F0, ((plain9 ^ 0x1FF) ^ mv9) & 0x1FF):
+            dd = d[:-1] + bytes([(d[-1] & 0xFC) | (t9 >> 7)])
+            s = t9 & 0x7F
+            good = (rem_int(bytes_bits(dd) + [(s >> (6 - i)) & 1 for i in range(7)], 9) ^ 0x1FF) ^ mv9
+            r = call(CRC9.calculate_from_parts, dd, s, m9)
+            pairs9.append((f"crc9 {hex_str(dd)} {s} {m9.value} none", out_int(r)))
+            ctx.case(("crc9-correlated", "straddle", dd, s, m9.name))
+            ctx.count("correlated:crc9:constant-straddles-data-and-serial-number")
+            if r != good:
+                ctx.fail("crc9-front", {"component": "crc9", "data": hex_str(dd), "serial": s, "mask": m9.name, "crc32": "none", "class": "constant straddles data and serial number"},
+                         f"CRC9.calculate_from_parts with the 9-bit constant {t9:#05x} across the data / serial number boundary", expected=good, actual=out_int(r))
+        # CRC-8: 36-bit style message followed by its own CRC-8
+        b8 = [rng.getrandbits(1) for _ in range(rng.choice([28, 36, rng.randint(1, 64)]))]
+        c8 = poly_rem(b8, 8)
+        for lab, msg in (("message+crc", b8 + c8), ("crc+message", c8 + b8), ("message+inverted-crc", b8 + [1 - x for x in c8])):
+            r = call(CRC8.calculate, bitarray(msg))
+            pairs8.append((f"crc8 0 {barg(bitarray(msg))}", out_int(r)))
+            ctx.case(("crc8-correlated", lab, barg(bitarray(msg))))
+            ctx.count(f"correlated:crc8:{lab}")
+            if r != rem_int(msg, 8):
+                ctx.fail("crc8-front", {"component": "crc8", "bits": barg(bitarray(msg)), "class": lab}, f"CRC8.calculate on a message that embeds its own check sum ({lab})", expected=rem_int(msg, 8), actual=out_int(r))
+    if not ctx.search_only and ctx.driver_ok:
+        ctx.correspond("engine.correlated", pairs_e)
+        ctx.correspond("CRC16.correlated", pairs16)
+        ctx.correspond("CRC32.correlated", pairs32)
+        ctx.correspond("CRC9.correlated", pairs9)
+        ctx.correspond("CRC8.correlated", pairs8)
+
+
+def long_message_cases(ctx, crcmod, CRC16, CRC32, CrcMasks):
+    """far beyond the dense range: one message of > 65536 bits per configuration in table mode, one of > 8192 bits
+    bit by bit (oracle only: the reference division is linear, the model driver is not asked)"""
+    rng = ctx.rng
+    enums = {7: crcmod.Crc7, 8: crcmod.Crc8, 9: crcmod.Crc9, 16: crcmod.Crc16, 32: crcmod.Crc32}
+    for w, en in enums.items():
+        name = CFG_NAMES[w]
+        fw = ref_feed_width(w)
+        for tb, n in ((True, rng.choice([65536, 65537, 65536 + fw, fw * 7300 + rng.randint(0, fw)])), (False, rng.choice([8192, 8193, 8200 + rng.randint(0, 900)])), (True, 4096 + rng.randint(0, 9))):
+            bits = [rng.getrandbits(1) for _ in range(n)]
+            exp = "".join(str(x) for x in poly_rem(bits, w))
+            r = out_bits(call(crcmod.BitCrcCalculator(en.ETSI_DMR, tb).calculate_checksum, bitarray(bits)))
+            ctx.case((name, tb, "very-long", n, exp))
+            ctx.count(f"long:{name}:{'table' if tb else 'bitwise'}:>{'65535' if n > 65535 else '8191' if n > 8191 else '4095'}-bits")
+            if r != exp:
+                ctx.fail("table-not-remainder" if tb else "bitwise-not-remainder", {"component": "engine", "config": name, "bits": barg(bitarray(bits)), "previous": None, "class": f"{n} bits"},
+                         f"{name}: message of {n} bits", expected=exp, actual=r)
+    for nb in (8192, 8193, 1500, 65535 // 8 + 3):
+        d = bytes(rng.getrandbits(8) for _ in range(nb))
+        r = call(CRC32.calculate, d)
+        good = rem_int(bytes_bits(ref_byteswap(d)), 32)
+        ctx.case(("crc32-long", nb, good))
+        ctx.count("long:crc32-front")
+        if r != good:
+            ctx.fail("crc32-front", {"component": "crc32", "data": hex_str(d)}, f"CRC32.calculate on {nb} octets", expected=good, actual=out_int(r))
+        r = call(CRC16.calculate, d, CrcMasks.CSBK)
+        good = (rem_int(bytes_bits(d), 16) ^ 0xFFFF) ^ ETSI_MASKS["CSBK"]
+        ctx.case(("crc16-long", nb, good))
+        ctx.count("long:crc16-front")
+        if r != good:
+            ctx.fail("crc16-front", {"component": "crc16", "data": hex_str(d), "mask": "CSBK"}, f"CRC16.calculate on {nb} octets", expected=good, actual=out_int(r))
+
+
+# ------------------------------------------------------------------------------------------------
+# (4) ambient interpreter / process state: a fixed small sample of the oracle with the root logger at DEBUG, with a
+#     sys.stdout that raises, with `random` reseeded between the calls, with warnings turned into errors, and in a
+#     child `python -O` process (asserts stripped) whose FIRST library calls are failing ones and a non-default
+#     7-bit configuration (forced thread interleavings: out of scope, the property does not speak of concurrency)
+def mini_oracle(seed, n, first_calls_fail=False, between=None):
+    """self-contained sample of the oracle; returns (cases, [failure dicts]).  `between()` is called between the
+    library calls.  Under `python -O` the range asserts of check() are gone: an out-of-range value then has to be
+    rejected with False (either way it must not be accepted)."""
+    import random as _random
+
+    rng = _random.Random(f"C05-mini:{seed}")
+    fails, cases = [], 0
+    between = between or (lambda: None)
+
+    def bad(kind, inp, what, exp, act):
+        if len(fails) < 20:
+            fails.append({"kind": kind, "input": inp, "what": what, "expected": exp, "actual": act})
+
+    try:
+        crcmod, CRC8, CRC9, CRC16, CRC32, CrcMasks = lib()
+    except BaseException as e:  # noqa
+        return 0, [{"kind": "ambient-import", "input": {"component": "ambient"}, "what": "the CRC modules cannot be imported", "expected": "import", "actual": impl_error(e)}]
+    enums = {7: crcmod.Crc7, 8: crcmod.Crc8, 9: crcmod.Crc9, 16: crcmod.Crc16, 32: crcmod.Crc32}
+    if first_calls_fail:
+        # the first call on every class is one that raises; a non-default 7-bit table register (same width and
+        # polynomial as Crc7.ETSI_DMR, output reversed) is the first user of the 7-bit lookup table
+        for fn, args in ((CRC16.calculate, (None, CrcMasks.CSBK)), (CRC16.check, (b"\x01\x02", 1 << 20, CrcMasks.CSBK)), (CRC32.calculate, (None,)), (CRC32.check, (b"\x01", -1)),
+                         (CRC9.calculate_from_parts, (b"\x01", 300, CrcMasks.CSBK)), (CRC9.check, (b"\x01", 1, 4096, CrcMasks.CSBK)), (CRC8.calculate, (None,)), (CRC8.check, (bitarray("1"), 999))):
+            call(fn, *args)
+        # (no front end holds a 7-bit calculator: in this process the very first 7-bit lookup table is asked for by a
+        #  register with ANOTHER polynomial, the second by a non-default one with the ETSI polynomial)
+        for w, poly, flags in ((7, OTHER_POLY[7], {}), (7, ETSI[7], {"reverse_output_bytes": True}), (8, ETSI[8], {"reverse_output_bytes": True}),
+                               (9, ETSI[9], {"reverse_output_bytes": True, "final_xor_value": 0x1FF}), (16, ETSI[16], {"final_xor_value": 0xFFFF, "init_value": 0xFFFF}),
+                               (32, ETSI[32], {"reverse_output_bytes": True, "reverse_input_bytes": True, "final_xor_value": 0xFFFFFFFF, "init_value": 0xFFFFFFFF})):
+            c = call(crcmod.BitCrcConfiguration, polynomial=poly, width_bits=w, **flags)
+            reg = call(crcmod.TableBasedBitCrcRegister, c)
+            if not is_err(reg):
+                for _ in range(6):
+                    call(reg.init)
+                    call(reg.update, bitarray([rng.getrandbits(1) for _ in range(8 * w * rng.randint(1, 2) if w > 9 else w * rng.randint(1, 2))]))
+                    call(reg.digest)
+                    call(reg.reverse)
+        call(lambda: crcmod.BitCrcCalculator(crcmod.Crc7.ETSI_DMR, True).calculate_checksum(None))
+    calcs = {(w, tb): call(crcmod.BitCrcCalculator, en.ETSI_DMR, tb) for w, en in enums.items() for tb in (False, True)}
+    masks = list(CrcMasks)
+    for i in range(n):
+        w = (7, 8, 9, 16, 32)[i % 5]
+        name = CFG_NAMES[w]
+        fw = ref_feed_width(w)
+        nbits = rng.choice([0, fw, 2 * fw, rng.randint(0, 100), 8 * rng.randint(1, 12)])
+        bits = [rng.getrandbits(1) for _ in range(nbits)]
+        exp = "".join(str(x) for x in poly_rem(bits, w))
+        good = int(exp, 2)
+        for tb in (False, True):
+            calc = calcs[(w, tb)]
+            between()
+            r = out_bits(call(calc.calculate_checksum, bitarray(bits))) if not is_err(calc) else calc
+            cases += 1
+            if r != exp:
+                bad("table-not-remainder" if tb else "bitwise-not-remainder", {"component": "engine", "config": name, "bits": barg(bitarray(bits)), "previous": None}, f"{name} differs from the remainder", exp, r)
+            for v in dict.fromkeys((good, _bitrev(good, w), good ^ ((1 << w) - 1), good + 1)):
+                between()
+                rv = call(calc.verify_checksum, bitarray(bits), v) if not is_err(calc) else calc
+                cases += 1
+                if rv is not (v == good):
+                    bad("verify-not-exact", {"component": "verify", "config": name, "bits": barg(bitarray(bits)), "value": v, "table": tb}, f"{name}.verify_checksum does not accept exactly the remainder", v == good, str(rv))
+        d = bytes(rng.getrandbits(8) for _ in range(rng.choice([0, 1, 2, 10, 12, rng.randint(0, 24)])))
+        m = masks[i % len(masks)]
+        mv = ETSI_MASKS.get(m.name, m.value)
+        sn = rng.randrange(128)
+        c32 = rng.choice([None, rng.getrandbits(32) | 1, (rng.getrandbits(32) | 1).to_bytes(4, "big")])
+        extra = [] if c32 is None else bytes_bits(c32 if isinstance(c32, bytes) else c32.to_bytes(4, "big"))
+        tag = "none" if c32 is None else (f"i:{c32}" if isinstance(c32, int) else "b:" + c32.hex())
+        b8 = [rng.getrandbits(1) for _ in range(rng.randint(0, 72))]
+        fronts = [
+            ("crc16", lambda: CRC16.calculate(d, m), lambda v: CRC16.check(d, v, m), (rem_int(bytes_bits(d), 16) ^ 0xFFFF) ^ mv, 16, 0xFFFF, {"data": hex_str(d), "mask": m.name}),
+            ("crc32", lambda: CRC32.calculate(d), lambda v: CRC32.check(d, v), rem_int(bytes_bits(ref_byteswap(d)), 32), 32, 0xFFFFFFFF, {"data": hex_str(d)}),
+            ("crc9", lambda: CRC9.calculate_from_parts(d, sn, m, c32), lambda v: CRC9.check(d, sn, v, m, c32), (rem_int(bytes_bits(d) + extra + [(sn >> (6 - k)) & 1 for k in range(7)], 9) ^ 0x1FF) ^ mv, 9, 511,
+             {"data": hex_str(d), "serial": sn, "mask": m.name, "crc32": tag}),
+            ("crc8", lambda: CRC8.calculate(bitarray(b8)), lambda v: CRC8.check(bitarray(b8), v), rem_int(b8, 8), 8, 255, {"bits": barg(bitarray(b8))}),
+        ]
+        for comp, calc_fn, check_fn, good, w_, top, inp in fronts:
+            between()
+            r = call(calc_fn)
+            cases += 1
+            if r != good:
+                bad(f"{comp}-front", dict(inp, component="crc9" if comp == "crc9" else comp), f"{comp}: wrong check sum", good, out_int(r))
+            nbo = (w_ + 7) // 8
+            for lab, v in (("computed", good), ("octets-reversed", int.from_bytes((good & ((1 << 8 * nbo) - 1)).to_bytes(nbo, "big"), "little")), ("bits-reversed", _bitrev(good, w_)),
+                           ("complement", good ^ ((1 << w_) - 1)), ("plus-1", good + 1), ("out-of-range", good + top + 1), ("negative", -1)):
+                between()
+                c = call(check_fn, v)
+                cases += 1
+                in_range = (v <= top) if comp == "crc9" else (0 <= v <= top)
+                # out of range (also the computed value itself when the mask is wider than the CRC): refused by the
+                # range assert, or — asserts stripped — answered like any other value
+                ok = (c is (v == good)) if in_range else (c == "ERR AssertionError" or c is (v == good))
+                if not ok:
+                    bad(f"{comp}-check", dict(inp, component=f"{comp}.check", value=v, transform=lab), f"{comp}.check does not accept exactly the computed value ({lab})", str(v == good) if in_range else "rejected", str(c))
+    return cases, fails
+
+
+class _RaisingWriter:
+    def write(self, *_a, **_k):
+        raise OSError("stdout is closed")
+
+    def flush(self):
+        raise OSError("stdout is closed")
+
+
+def run_ambient_mode(mode, seed, n):
+    """(cases, failures) of the mini oracle under one ambient state; everything is restored afterwards"""
+    import logging
+    import random as _random
+    import sys
+    import warnings
+
+    if mode == "logging-debug":
+        root = logging.getLogger()
+        old, handler = root.level, logging.NullHandler()
+        names = [nm for nm in list(logging.root.manager.loggerDict) if nm.startswith("okdmr")]
+        olds = {nm: logging.getLogger(nm).level for nm in names}
+        root.addHandler(handler)
+        root.setLevel(logging.DEBUG)
+        for nm in names:
+            logging.getLogger(nm).setLevel(logging.DEBUG)
+        try:
+            return mini_oracle(seed, n)
+        finally:
+            root.setLevel(old)
+            root.removeHandler(handler)
+            for nm, lv in olds.items():
+                logging.getLogger(nm).setLevel(lv)
+    if mode == "stdout-raises":
+        old_out, old_err = sys.stdout, sys.stderr
+        sys.stdout = sys.stderr = _RaisingWriter()
+        try:
+            return mini_oracle(seed, n)
+        finally:
+            sys.stdout, sys.stderr = old_out, old_err
+    if mode == "random-reseeded":
+        state = _random.getstate()
+        k = [0]
+
+        def between():
+            k[0] += 1
+            _random.seed(k[0] % 3)
+
+        try:
+            return mini_oracle(seed, n, between=between)
+        finally:
+            _random.setstate(state)
+    if mode == "warnings-are-errors":
+        with warnings.catch_warnings():
+            warnings.simplefilter("error")
+            return mini_oracle(seed, n)
+    if mode == "python -O":
+        return run_child(seed, n)
+    return mini_oracle(seed, n)
+
+
+def run_child(seed, n):
+    """the mini oracle in a child `python -O` process that starts with failing calls; (cases, failures) or
+    (None, note) when the child could not be run (never reported as a violation)"""
+    import os
+    import subprocess
+    import sys
+
+    here = os.path.abspath(__file__)
+    harness = os.path.dirname(os.path.dirname(here))
+    env = dict(os.environ)
+    pp = [p for p in (os.environ.get("VERIF_REPO"), harness) if p]
+    env["PYTHONPATH"] = os.pathsep.join(pp + ([env["PYTHONPATH"]] if env.get("PYTHONPATH") else []))
+    try:
+        r = subprocess.run([sys.executable, "-O", here, "--child", str(seed), str(n)], capture_output=True, text=True, timeout=300, env=env)
+        obj = json.loads(r.stdout.strip().splitlines()[-1])
+        if obj.get("debug") is not False:
+            return None, "child did not run with -O"
+        return obj["cases"], obj["failures"]
+    except BaseException as e:  # noqa
+        return None, f"child process unavailable: {impl_error(e)}"
+
+
+AMBIENT_MODES = ["logging-debug", "stdout-raises", "random-reseeded", "warnings-are-errors", "python -O"]
+
+
+def ambient_cases(ctx):
+    for mode in AMBIENT_MODES:
+        seed = ctx.rng.getrandbits(32)
+        n = 60 if mode != "python -O" else 150
+        cases, fails = run_ambient_mode(mode, seed, n)
+        if cases is None:
+            ctx.notes.append(f"ambient mode '{mode}': {fails}")
+            ctx.count(f"ambient:{mode}:unavailable")
+            continue
+        ctx.evaluations += cases
+        ctx.case(("ambient", mode, seed))
+        ctx.count(f"ambient:{mode}:calls", cases)
+        for f in fails[:5]:
+            inp = dict(f["input"], ambient={"mode": mode, "seed": seed, "n": n})
+            where = "fresh `python -O` process whose first calls raise / use non-default configurations" if mode == "python -O" else mode
+            ctx.fail(f["kind"], inp, f"[{where}] {f['what']}", expected=f["expected"], actual=f["actual"])
+
+
+def child_main(argv):
+    import sys
+
+    cases, fails = mini_oracle(int(argv[0]), int(argv[1]), first_calls_fail=True)
+    sys.stdout.write(json.dumps({"debug": __debug__, "cases": cases, "failures": fails}, default=str) + "\n")
+
+
 CORPUS = [
     # (config width, bits): lengths around the feed widths and the CRC-9 block sizes
     (9, "1" * 87), (9, "1" * 135), (9, "1" * 183), (9, "0" * 8 + "1"), (7, "1" * 8), (16, "1" * 9), (32, "1" * 33), (8, "1"),
@@ -1256,6 +2574,27 @@ def run(ctx):
         "of the feed width, around runs of zeros, bit by bit, empty pieces) on fresh, re-used and calculator-owned registers of both kinds "
         "and all five configurations: every update() return value and the digest against the reference division and the one-shot value; "
         "returned bit strings held, scribbled over by the caller and re-verified. "
+        "Round 3: (a) every check()/verify entry point (verify_checksum of the 5 engines in both modes, CRC8/16/32/9.check) on the computed value "
+        "and ~50-80 wrong values that are systematic transforms of it — octets / bits reversed (whole, per octet, in the octet container), halves, "
+        "octet pairs and nibbles swapped, complements, rotations, shifts, xor every data-type mask, the value under every other mask / without "
+        "inversion / without mask, neighbours, truncations, sign and width confusions, xor the proper factors of the generator, the values other "
+        "flavours of the same polynomial give (all-ones initial value, reflected, zlib.crc32, crc_hqx), the values of neighbouring inputs (octet "
+        "dropped / added / reversed / not swapped, serial number +-1, CRC-32 part absent / octet-reversed) — verdict True exactly for the computed value; "
+        "(b) histories: register objects and calculators of NON-DEFAULT configurations that share the lookup-table cache key or part of it with "
+        "the standard ones (every flag of BitCrcConfiguration toggled alone and combined on each ETSI polynomial, explicit feed widths 1 / small / "
+        "derived / = width / > width, another polynomial at the same width, the same polynomial at another width, a dataclass equal to the standard "
+        "one) under every public call (init, update, digest, reverse, reading and assigning .register, calculate_checksum, verify_checksum, calls "
+        "that raise, the caller changing returned objects in place, arguments that are frozen / read-only / little-endian), interleaved with "
+        "standard registers, calculators and front-end calls; after every history the process-wide lookup tables are compared entry by entry with the "
+        "reference division, standard objects inside the history are checked against the reference at every step, and — always when a table differs, "
+        "else every 16th history — all standard engines (held and new, both kinds) and the four front ends are probed as black boxes on every "
+        "one-chunk message; more (width, polynomial) keys than the cache holds; (c) argument provenance (frozenbitarray, read-only / writable / "
+        "memoryview buffer imports, slices, the library's own bytes_to_bits, the calculator's own result fed back; bytearray / memoryview / tobytes "
+        "for the byte front ends); (d) inputs correlated through the check sum (message ‖ crc in every order / notation, crc ‖ message, CRC-9 whose "
+        "crc32 part is the CRC-32 of the data, mask / polynomial octets as data); (e) messages of > 8192 bits bit by bit and > 65536 bits table-driven; "
+        "(f) a fixed sample of the oracle with the root logger at DEBUG, sys.stdout / stderr raising, `random` reseeded between calls, warnings as "
+        "errors, and in a fresh `python -O` child process whose first library calls raise and whose first lookup tables are asked for by non-default "
+        "configurations. "
         "A case is non-trivial unless the message is empty or all-zero; distinct = distinct (component, input)."
     )
     ctx.trusted_base += [
@@ -1263,10 +2602,14 @@ def run(ctx):
         "tools/extract_crc.py (the five BitCrcConfiguration values after __post_init__, the configuration/register kind of the four CALC singletons, all CrcMasks)",
         "hand-written model of crc.py / crc8.py / crc9.py / crc16.py / crc32.py (Model/Crc.lean, Model/CrcFront.lean; register objects fed in pieces: Model/CrcStream.lean) tied to the code by this run's correspondence",
         "bitarray (ba2int/int2ba/shift/xor/lexicographic >=) trusted as the substrate; the oracle's reference is an independent list-based long division in this file",
+        "Model/CrcConfigs.lean (any configuration, every public call; driver op crc.cfg) is a pure function of one object's configuration and calls: that no call on "
+        "one object changes what another object or a cached lookup table holds is not a theorem but what the history probes of this run check on the real code",
     ]
     ctx.assumptions += [
         "engine theorems are for big-endian containers (the library's representation of a bit string); on a little-endian container the table register reads full chunks as integers and differs from the bit-by-bit one — the CRC-32 front end depends on exactly that and is proved through it (DESIGN §8)",
-        "reverse_input_bytes is not modelled (off in all five configurations; theorem configs_etsi)",
+        "reverse_input_bytes is off in all five configurations (theorem configs_etsi); it is modelled (Model/CrcConfigs.lean) for buffers of whole octets only — "
+        "bitarray.bytereverse on a partial last octet depends on the buffer's pad bits; such calls are made in the histories but not compared with the model",
+        "forced thread interleavings are not exercised (the property does not speak of concurrency; the calculators are documented single-threaded singletons)",
     ]
     crcmod, CRC8, CRC9, CRC16, CRC32, CrcMasks = lib()
     corpus_cases(ctx, crcmod)
@@ -1279,7 +2622,13 @@ def run(ctx):
     structured_engine_cases(ctx, crcmod)
     structured_front_cases(ctx, CRC8, CRC9, CRC16, CRC32, CrcMasks)
     stream_cases(ctx, crcmod)
+    transform_cases(ctx, crcmod, CRC8, CRC9, CRC16, CRC32, CrcMasks)
+    correlated_cases(ctx, crcmod, CRC8, CRC9, CRC16, CRC32, CrcMasks)
+    provenance_cases(ctx, crcmod, CRC8, CRC9, CRC16, CRC32, CrcMasks)
+    long_message_cases(ctx, crcmod, CRC16, CRC32, CrcMasks)
+    ambient_cases(ctx)
     returned_object_cases(ctx, crcmod, CRC16, CRC9, CRC32, CrcMasks)
+    history_cases(ctx, (crcmod, CRC8, CRC9, CRC16, CRC32, CrcMasks))
 
 
 # ------------------------------------------------------------------------------------------------
@@ -1290,6 +2639,15 @@ def replay(obj):
     if not inp:
         print(json.dumps(obj.get("no_longer_checks") or obj.get("correspondence_differences"), indent=1)[:4000])
         return 1
+    if inp.get("ambient"):
+        # found under an ambient interpreter / process state: the whole fixed sample is run again under that state
+        a = inp["ambient"]
+        cases, fails = run_ambient_mode(a["mode"], a["seed"], a["n"])
+        print(f"ambient state '{a['mode']}': {cases} library calls, {len(fails) if cases is not None else fails} wrong")
+        for x in (fails if cases is not None else [])[:5]:
+            print(" ", x["kind"], json.dumps(x["input"]), "expected", x["expected"], "actual", x["actual"])
+        print("expected:", f.get("expected"), "actual:", f.get("actual"))
+        return 1 if cases is not None and fails else 0
     crcmod, CRC8, CRC9, CRC16, CRC32, CrcMasks = lib()
     enums = {"crc7": crcmod.Crc7, "crc8": crcmod.Crc8, "crc9": crcmod.Crc9, "crc16": crcmod.Crc16, "crc32": crcmod.Crc32}
     widths = {v: k for k, v in CFG_NAMES.items()}
@@ -1412,6 +2770,40 @@ def replay(obj):
         print(f"implementation CRC9.calculate = {r}; (inverted remainder) xor mask = {good}")
         lines = [f"crc9.bits 0 {barg(bits)} {m.value}"]
         still = int(r != good)
+    elif comp == "history":
+        libs = (crcmod, CRC8, CRC9, CRC16, CRC32, CrcMasks)
+        probe = StdProbe(libs)  # standard calculators that exist before the history
+        h = Hist(libs)
+        for st, o in zip(inp["history"], h.run(inp["history"])):
+            print(f"  {json.dumps(st)}  ->  {o}")
+        for kind, what, exp, act, at in h.problems:
+            print(f"step {at}: {what}: expected {exp}, got {act}")
+            still = 1
+        ch = h.held_changed()
+        if ch:
+            print(f"the bit string returned at step {ch[0]} was {ch[1]} and is now {ch[2]}")
+            still = 1
+        bad = check_tables(crcmod, (CRC8, CRC9, CRC16, CRC32), heal=False)
+        for where, w, i, exp, act in bad[:8]:
+            print(f"lookup table {where} of {CFG_NAMES[w]}: entry {i} is {act}, the remainder of its index is {exp}")
+        still = still or int(bool(bad))
+        pr = inp.get("probe")
+        if pr:
+            e = pr.get("engine", "")
+            if "bits" in pr and pr.get("config"):
+                name = pr["config"]
+                bits = bits_of(pr["bits"])
+                exp = "".join(str(x) for x in poly_rem(bits, widths[name]))
+                calc = probe.held[(widths[name], True)] if e == "held-table" else probe.held[(widths[name], False)] if e == "held-bitwise" else crcmod.BitCrcCalculator(enums[name].ETSI_DMR, e != "new-bitwise")
+                r = out_bits(call(calc.calculate_checksum, bitarray(bits)))
+                print(f"after the history: standard {name} calculator ({e}) on {pr['bits']} -> {r}; remainder (reference) {exp}")
+                lines = [f"crc.tab {name} 0 {pr['bits']}"]
+                still = still or int(r != exp)
+            else:
+                got = probe.probe(__import__("random").Random(0), None, full=True)
+                print(f"after the history: first wrong standard answer: {got}")
+                still = still or int(got is not None)
+        lines += [l for l, _ in h.model_pairs()]
     elif comp == "stream":
         name = inp["config"]
         w = widths[name]
@@ -1489,3 +2881,10 @@ def replay(obj):
             print("model driver not available:", e)
     print("expected:", f.get("expected"), "actual:", f.get("actual"))
     return 1 if still else 0
+
+
+if __name__ == "__main__":
+    import sys as _sys
+
+    if len(_sys.argv) >= 4 and _sys.argv[1] == "--child":
+        child_main(_sys.argv[2:])
